@@ -19,6 +19,11 @@ ASSUMPTIONS = []
 KINDS = ['cubic', 'ortho', 'mono', 'hexlike', 'hex', 'tri', 'tri_full']
 
 
+def pre_build():
+    import translate
+    return [translate.gen_volume_binning()]
+
+
 def gen_cases(rng, tier):
     n = {'quick': 220, 'thorough': 4000, 'search': 150}[tier]
     cases = []
